@@ -5,8 +5,8 @@ import copy
 
 from ..mon import Reach
 from ..ref_sem import Lang, AModel, eval_expr
-from ..result import Budget, digest
-from ..stream import gen_case, Built, shrink_case
+from ..result import Budget, digest, safe
+from ..stream import TooExpensive, gen_case, Built, shrink_case
 from ..gen_lang import Cfg
 from ..gen_model import MCfg
 
@@ -59,7 +59,7 @@ def hostile_names(rng, case):
     return case
 
 
-def check_case(case, res, count=True):
+def _check_case(case, res, count=True):
     case = copy.deepcopy(case)
     try:
         built = Built(case, attackers=False)
@@ -85,9 +85,15 @@ def check_case(case, res, count=True):
         res.count('rename-collision-pattern')
     try:
         graph = built.attack_graph()
+    except TooExpensive:
+        res.count('skipped:too-expensive')
+        return None
     except Exception as exc:
         return ('attackgraph.generate:raised-%s' % type(exc).__name__, 'generation raised %r' % (exc,))
     return check_graph(built, graph, res, count)
+
+
+check_case = safe(_check_case)
 
 
 def check_graph(built, graph, res, count=True):
